@@ -2,6 +2,7 @@
 // Everything here only records and delegates to the real PEGTL implementation.
 #pragma once
 
+#include <cstring>
 #include <cstddef>
 #include <cstdint>
 #include <string>
@@ -337,7 +338,12 @@ namespace sim
       template< typename In, typename... St >
       [[noreturn]] static void raise( const In& in, St&&... st )
       {
-         log_event( Ev::RAISE, rid< Rule >(), 0, 0, CF, snap( in ), sid_of( st... ) );
+         // y: fingerprint of the rule's custom error message, 0 if it has none (then the default message names the rule)
+         std::uint32_t mh = 0;
+         if constexpr( pegtl::internal::has_error_message< Rule > ) {
+            mh = static_cast< std::uint32_t >( fnv1a( Rule::error_message, std::strlen( Rule::error_message ) ) ) | 1u;
+         }
+         log_event( Ev::RAISE, rid< Rule >(), 0, 0, CF, snap( in ), sid_of( st... ), 0, mh );
          pegtl::normal< Rule >::raise( in, st... );
       }
 
@@ -349,7 +355,11 @@ namespace sim
          s.byte = s.pos = static_cast< std::uint32_t >( p.byte );
          s.line = static_cast< std::uint32_t >( p.line );
          s.col = static_cast< std::uint32_t >( p.column );
-         log_event( Ev::RAISE_NESTED, rid< Rule >(), 0, 0, CF, s, sid_of( st... ) );
+         std::uint32_t mh = 0;
+         if constexpr( pegtl::internal::has_error_message< Rule > ) {
+            mh = static_cast< std::uint32_t >( fnv1a( Rule::error_message, std::strlen( Rule::error_message ) ) ) | 1u;
+         }
+         log_event( Ev::RAISE_NESTED, rid< Rule >(), 0, 0, CF, s, sid_of( st... ), 0, mh );
          pegtl::normal< Rule >::raise_nested( am, st... );
       }
 
